@@ -143,7 +143,8 @@ def run(ctx):
                            "design_notes/C18.md, transport section; unz (z b) = b is a hypothesis of C18_read_paths_agree")
     ctx.proof_phase()
     explore(ctx, ctx.tier)
-    return ctx.finish(search=lambda c: explore(c, "thorough", search=True))
+    return ctx.finish(search=lambda c: explore(c, "thorough", search=True),
+                      witnesses={c18_cachekey.K_EARTHDATA: c18_cachekey.wit_earthdata})
 
 
 def replay(payload):
